@@ -34,7 +34,11 @@ type Ctx struct {
 }
 
 func NewCtx(p *Program, prop, tier string) *Ctx {
-	return &Ctx{P: p, Prop: prop, Tier: tier, Analysed: map[string]bool{}, seen: map[string]bool{}}
+	c := &Ctx{P: p, Prop: prop, Tier: tier, Analysed: map[string]bool{}, seen: map[string]bool{}}
+	for _, n := range p.Normalized {
+		c.Note("helper normalisation (see DESIGN.md 10.7): " + n)
+	}
+	return c
 }
 
 func (c *Ctx) add(o Obligation) {
